@@ -12,6 +12,8 @@
    (read_exact(&mut buf[2..4]) then read_u32(&buf)).
 5. selection (FLOW): the adaptive decoder is used iff flexible_decoding && little endian, else the transfer syntax's own.
 """
+import re
+
 from . import facts, hirq as H, mirq as M, common as C
 from . import c03
 
@@ -164,6 +166,18 @@ def run(chk, tier):
         else_t = " ".join((H.callee(x) or "") for x in H.walk(ifs[0][4]) if H.kind(x) in ("call", "mcall"))
         ok = c == "(options.flexible_decoding And (ts.endianness() Eq byteordered::base::Endianness::Little))" and "AdaptiveVRLittleEndianDecoder" in then_t and "new_with_override" in else_t
     chk.expect(ok, "selection", "new_with_ts_cs_options", "adaptive-iff-flexible-and-little-endian", "if flexible && LE { adaptive } else { new_with_override(ts) }", [H.show(x[2], 6) for x in ifs], loc=C.fn_loc(hs))
+    # both branches build the stateful decoder from the same reader settings: character set, character set override, base position
+    if len(ifs) == 1:
+        def ctor_args(branch):
+            for x in H.walk(branch):
+                if H.kind(x) == "call" and re.search(r"StatefulDecoder::<.*>::(new_with_\w+)$", H.callee(x) or ""):
+                    return (H.callee(x) or "").split("::")[-1], [H.show(a, 4) for a in H.call_args(x)]
+            return None, []
+        tn, ta = ctor_args(ifs[0][3])
+        en, ea = ctor_args(ifs[0][4])
+        common = ["cs", "options.charset_override", "0"]
+        chk.expect(tn is not None and en is not None and ta[-3:] == common and ea[-3:] == common, "selection", "new_with_ts_cs_options", "same-reader-settings-in-both-branches",
+                   {"flexible": common, "regular": common}, {"flexible": (tn, ta[-3:]), "regular": (en, ea[-3:])}, loc=C.fn_loc(hs))
     ho = fx.method("dicom_parser", "dicom_parser::stateful::decode::StatefulDecoder", "new_with_override")
     chk.expect(any((c or "").endswith("::decoder_for") for c, _ in H.calls(ho["body"])), "selection", "new_with_override", "uses-ts-decoder", "ts.decoder_for()", "ok")
     # the probe trusts VR::from_binary to recognise exactly the 34 defined two-letter codes (anything else means "not explicit VR")
